@@ -245,7 +245,10 @@ def cli_cases(draw):
         spec = None
     else:
         spec = f"{b * 3},{k}{draw(st.sampled_from(['B', 'b', 'N']))}"
-    return {"part": "cli", "b": b, "nbins": nb, "kind": kind, "spec": spec, "exact": exact and kind != "4dn",
+    # value columns given on the command line: several --field options in any order, each with its own aggregate
+    fields = draw(st.sampled_from([None, None, ["count"], ["x:agg=max", "count"], ["count", "x:agg=min"], ["x:agg=max"],
+                                   ["x:agg=max", "count:agg=sum"], ["count:agg=max", "x"]]))
+    return {"part": "cli", "b": b, "nbins": nb, "kind": kind, "spec": spec, "exact": exact and kind != "4dn", "fields": fields,
             "px": draw(st.lists(st.tuples(st.integers(0, 499), st.integers(0, 499), st.integers(1, 9)), min_size=1, max_size=12,
                                 unique_by=lambda t: (min(t[0], t[1]), max(t[0], t[1]))))}
 
@@ -301,12 +304,25 @@ def check_cli(case, ctx: Ctx):
     b, nb = case["b"], case["nbins"]
     bt = model.binnify(["chr1", "chr2"], [nb[0] * b - (0 if case.get("exact") else b // 3), nb[1] * b], b)
     rows = sorted([min(i, j), max(i, j), v] for i, j, v in case["px"])
+    fields = case.get("fields")
+    cols, aggs = ["count"], ("sum",)
+    if fields:
+        # second value column, never equal to count and not monotone in it
+        rows = [[i, j, v, (7 * v + 3 * i + j) % 11 + 10] for i, j, v in rows]
+        spec_ = [(f.split(":")[0], (f.split("agg=")[1] if "agg=" in f else "sum")) for f in fields]
+        cols = [c for c, _ in spec_]
+        aggs = tuple(a for _, a in spec_)
     work = ctx.tmpdir()
     try:
         base = os.path.join(work, "base.cool")
-        call("create base", create_from_model, base, bt, rows, True, h5opts={"compression": None})
+        if fields:
+            call("create base", create_from_model, base, bt, rows, True, cols=("count", "x"), dtypes={"x": "int64"}, h5opts={"compression": None})
+        else:
+            call("create base", create_from_model, base, bt, rows, True, h5opts={"compression": None})
         out = os.path.join(work, "z.mcool")
         args = ["zoomify", base, "-o", out, "-c", "100000"]
+        for f in fields or []:
+            args += ["--field", f]
         if case["spec"] is not None:
             args += ["-r", case["spec"]]
         genome = sum(e[-1] for e in bt["edges"])
@@ -326,12 +342,16 @@ def check_cli(case, ctx: Ctx):
         for r in want[:: max(1, len(want) // 3)]:
             clr = cooler.Cooler(f"{out}::resolutions/{r}")
             k = r // b
-            wp = model.coarsen_rows(bt, rows, k, True, ("sum",)) if k > 1 else rows
-            check(_read(clr, ["count"]) == wp, f"level {r} differs from coarsening the base by {k}")
+            pr = _proj(rows, cols) if fields else rows
+            wp = model.coarsen_rows(bt, pr, k, True, aggs) if k > 1 else pr
+            gp = _read(clr, cols)
+            check(gp == wp, lambda: f"level {r} {cols} differs from coarsening the base by {k} with {aggs}: got {gp[:4]} want {wp[:4]}")
+            check(sorted(clr.pixels()[:].columns) == sorted(["bin1_id", "bin2_id", *cols]),
+                  lambda: f"level {r} has columns {list(clr.pixels()[:].columns)}, --field named {cols}")
             check(model.read_bins(clr) == model.bins_rows(model.coarsen_bins(bt, k) if k > 1 else bt), f"level {r} bin table differs")
     finally:
         ctx.clean(work)
-    ctx.record(case, len(want) >= 3, ["cli", "cli-" + case["kind"], f"cli-levels={min(len(want), 6)}",
+    ctx.record(case, len(want) >= 3, ["cli", "cli-" + case["kind"], f"cli-levels={min(len(want), 6)}", "cli-fields=" + ",".join(fields or ["default"]),
                                       "cli-maxres-is-member" if maxres in want else "cli-maxres-between"])
 
 
